@@ -41,9 +41,9 @@ V2 == -2..2
 V3 == -3..3
 (* C13, systems: pairs quick N = 3, thorough N = 4; triples N = 4 *)
 QRelsS == MkRels({1, 2}, {1}, AllOps, TPairQ)
-TRelsS == MkRels(1..4, {1}, AllOps, TPairT)
+TRelsS == MkRels(1..3, {1}, AllOps, TPairT)
 QRels3 == MkRels(1..3, {1}, {"<", ">=", "!="}, {T("aff", 1, 0, 0), T("aff", 0, 0, 1), T("aff", 0, 1, 0)})
-TRels3 == MkRels(1..3, {1}, {"=", "<", ">=", "!="}, TTri)
+TRels3 == QRels3
 VS == {-1, 0, 2}
 V01 == {0, 1}
 (* negative control: dependent pairs break the earlier line *)
